@@ -133,6 +133,7 @@ def run(res, tier, seed, search):
     dk.check_blocks(res, rng, 40 if tier == "quick" else 300)
     big_case(res, rng, "dense32")
     big_case(res, rng, "dense32", extra=3)
+    big_case(res, rng, "csr", extra=3)        # the sparse module has its own copy of the block loop and of the stop test
     if tier != "quick" or search:
         big_case(res, rng, "csr"); big_case(res, rng, "dense32")
     numba.set_num_threads(numba.config.NUMBA_NUM_THREADS)
